@@ -1,0 +1,5 @@
+//go:build !verif
+
+package hclsyntax
+
+func verifHook(ev string, obj, ctx, arg any) {}
